@@ -359,6 +359,7 @@ def _one_run(c, cfg_label, cfg, repo_src, registry, snapshot_root, prefix):
         env[pname] = cfg[pname] if pname in cfg else make_value(ex, st, spec, pname)
     c.setup(ex, st, cfg)
     env["$module"] = module
+    env["$qualname"] = c.key.split("::")[-1]
     st.frames = [env]
     entry_env = {k: v for k, v in env.items() if not k.startswith("$")}
     entry_state = st.fork()
@@ -469,6 +470,7 @@ def _verify_contract(c: Contract, cfg_label: str, cfg: dict, repo_src: str, regi
                 env[pname] = make_value(ex, st, spec, pname)
         c.setup(ex, st, cfg)
         env["$module"] = module
+        env["$qualname"] = c.key.split("::")[-1]
         st.frames = [env]
         entry_env = {k: v for k, v in env.items() if not k.startswith("$")}
         rr.entry_env = entry_env
